@@ -59,6 +59,8 @@ Definition any_code {E : Type} (_ _ : E) : Prop := True.
 
 (* voxels with statuses, codes are the integers of Manifold::Error *)
 Definition SVoxOps : CsgOps := StatOps VoxOps Z first_wins any_code.
+(* the order-independent rule (hooks/fix_C03_1.patch): the smallest code wins, codes compared exactly *)
+Definition SVoxOpsMin : CsgOps := StatOps VoxOps Z Z.min (@eq Z).
 Definition svovl (a b : @st VoxOps Z * list gen) : bool :=
   match fst a, fst b with
   | Ok x, Ok y => vovl (x, snd a) (y, snd b)
